@@ -189,6 +189,14 @@ class Campaign:
             exit_code = 1
         for (p, k), nn in sorted(incidental.items()):
             out_lines.append(f"NOTE property={p} {k} seen {nn}x on this campaign (not this check's property)")
+        inner = collections.Counter()
+        inner_ex = {}
+        for r in results:
+            for f in (r or {}).get("inner_failures") or []:
+                inner[f[0]] += 1
+                inner_ex.setdefault(f[0], f[1])
+        for name, nn in inner.items():
+            out_lines.append(f"NOTE inner-monitor (advisory, icontract post-condition inside JADE) failed {nn}x: {name}: {inner_ex[name]}")
         reason = None
         if exit_code == 0:
             if harness_err:
